@@ -1796,7 +1796,15 @@ class PSBTOut:
                 except ValueError:
                     raise ValueError(f"pubkey is not in WitnessScript {self}")
         elif self.redeem_script and self.redeem_script.is_p2wpkh():
-            # p2sh-p2wpkh: the RedeemScript holds the hash160 of the pubkey
+            # p2sh-p2wpkh: the output has to actually pay to the RedeemScript
+            if (
+                not script_pubkey.is_p2sh()
+                or self.redeem_script.hash160() != script_pubkey.commands[1]
+            ):
+                raise ValueError(
+                    "RedeemScript hash160 and ScriptPubKey hash160 do not match"
+                )
+            # the RedeemScript holds the hash160 of the pubkey
             if len(self.named_pubs) > 1:
                 raise ValueError("too many pubkeys in p2sh-p2wpkh")
             elif len(self.named_pubs) == 1:
